@@ -77,9 +77,9 @@ mut("C08-code-sort-ties-by-address", "lib.c",
 mut("C08-clock-in-lisp-header", "emit.c",
     '	fprintf(fout, "%s", emitLispHdFmt3);\n\n	for ( ; !sxiNull(lispCode)',
     '	fprintf(fout, "%s", emitLispHdFmt3);\n	{ extern long time(long *); if (time(0) % 2) fprintf(fout, "\\n"); }\n\n	for ( ; !sxiNull(lispCode)')
-mut("C08-revert-java-order", "java/genjava.c",
-    "	for (tl = types; tl != listNil(JavaCode); tl = cdr(tl)) {\n		JavaCode type = car(tl);",
-    "	{ TableIterator it; types = listNil(JavaCode); for (tblITER(it, tbl); tblMORE(it); tblSTEP(it)) types = listCons(JavaCode)((JavaCode) tblKEY(it), types); }\n	for (tl = types; tl != listNil(JavaCode); tl = cdr(tl)) {\n		JavaCode type = car(tl);")
+mut("C08-java-group-order-by-address", "java/genjava.c",
+    "	types = listNReverse(JavaCode)(types);\n\n	/* One declaration per type, its variables in index order. */",
+    "	types = listNReverse(JavaCode)(types);\n	if (types && (((ULong) car(types)) >> 5) % 3 == 1) types = listNReverse(JavaCode)(types);\n\n	/* One declaration per type, its variables in index order. */")
 
 # ---------------------------------------------------------------- C13 -------
 mut("C13-no-undo-after-tinfer-error", "axlcomp.c",
